@@ -167,6 +167,15 @@ def split_snap(txt):
     return d
 
 
+def snap_as_input(txt):
+    """snapshot text as printed -> as parsed (file_bytes is printed unsigned but read as a signed decimal)"""
+    t = txt.split()
+    i = 3 + 1 + 2 * int(t[3]) + 5
+    if t[i] != "none" and int(t[i]) >= 2 ** 63:
+        t[i] = str(int(t[i]) - 2 ** 64)
+    return " ".join(t)
+
+
 def overlapping(f, g):
     """getter g legitimately changes when setter f is called (same field, a view of it, or derived)"""
     fb = f.split()[0]
@@ -206,6 +215,7 @@ def tie(ctx):
             "other_track_checks": 0, "nan_values": 0, "perf_row_missing_scripts": 0}
     distinct = set()
     evals = 0
+    put_lines, put_meta = [], []
     for (sch, lines, meta), (hout, hrep), mout in zip(scripts, hres, mres):
         for i, l in enumerate(lines):
             evals += 1
@@ -262,6 +272,11 @@ def tie(ctx):
                              ["get %s %s" % (t, fkey), "want: " + spec[:400], "got:  " + got[:400]])
                         continue
                     distinct.add((f, spec))
+                # the whole lens on the implementation's own snapshots: snapshot after = putField (snapshot before)
+                sb, sa = before.get((t, "snap"), ""), after.get((t, "snap"), "")
+                if spec.startswith("ok ") and not nan and sb.startswith("ok ") and sa.startswith("ok "):
+                    put_lines.append("v1spec.putfield %s %s %s" % (f, v, snap_as_input(sb[3:])))
+                    put_meta.append((sa, sch, f, t, lines, meta, i))
             else:
                 c = res.split()[1] if len(res.split()) > 1 else res
                 hist["set_throw"][c] = hist["set_throw"].get(c, 0) + 1
@@ -309,6 +324,17 @@ def tie(ctx):
                         viol(kk, "getter %s and snapshot().%s disagree on %s" % (g, g, sch),
                              ["get %s %s" % (t, g), "snap %s" % t, "getter:   " + got[:300], "snapshot: " + want[:300]])
                         break
+    # second Spec pass: the lens applied to the snapshot the real library returned before the call
+    hist["snapshot_lens_checks"] = len(put_lines)
+    pout = [o for outs in runner.run_model(runner.shard(put_lines, NCPU)) for o in outs] if put_lines else []
+    for want, (sa, sch, f, t, lines, meta, i) in zip(pout, put_meta):
+        if want != sa:
+            body = [l for l, m in zip(lines[:i + 1], meta[:i + 1]) if not (m and m[0] in ("obs", "rows"))]
+            violations.append({"tag": "oracle", "signature": None,
+                               "header": {"kind": "history", "part": "C06_v1",
+                                          "what": "snapshot() after setter %s is not the snapshot before with that field "
+                                                  "replaced by the normalised value on %s" % (f, sch)},
+                               "body": body + ["note: snap " + t, "note: want: " + want[:600], "note: got:  " + sa[:600]]})
     crashes = [r for (_, reps) in hres for r in reps]
     return {
         "ok": not divergences and not violations,
@@ -318,8 +344,8 @@ def tie(ctx):
                 "PerformanceData row of one track is deleted first), every setter incl. slot setters at indices 0..7 and "
                 "out of range, values from the C01 classes; after every step all 26 getters, slot getters, filename / "
                 "extension and snapshot() of all three tracks; model vs implementation line by line; lens laws "
-                "(get-after-set = Spec.normField, frame, other tracks, getter = snapshot field) on the implementation's "
-                "answers; non-trivial = distinct (setter, normalised value) pairs confirmed by the getter",
+                "(get-after-set = Spec.normField, frame, other tracks, getter = snapshot field, snapshot after = "
+                "Spec.putField of the snapshot before) on the implementation's answers; non-trivial = distinct (setter, normalised value) pairs confirmed by the getter",
         "samples": [scripts[0][1][2][:300]] + [l[:200] for l in scripts[0][1] if l.startswith("set ")][:3],
         "histograms": hist,
         "divergences": divergences[:20],
